@@ -2,6 +2,7 @@ mod drive_ctx;
 mod drive_eval;
 mod drive_ops;
 mod drive_refs;
+mod drive_share;
 mod enc;
 mod gen;
 mod gen_untyped;
@@ -101,6 +102,20 @@ fn main() {
             let k = drive_refs::drive(seed, n, if depth > 0 { depth } else { 5 }, &mut out);
             out.flush().unwrap();
             eprintln!("drive-refs cases={}", k);
+        }
+        "share-histories" => {
+            let mut out = std::io::BufWriter::new(std::fs::File::create(&out_path).expect("open out"));
+            let k = drive_share::histories(seed, n, &mut out);
+            out.flush().unwrap();
+            eprintln!("share-histories executions={}", k);
+        }
+        "share-threads" => {
+            let mut out = std::io::BufWriter::new(std::fs::File::create(&out_path).expect("open out"));
+            let threads: usize = arg(&args, "--threads").and_then(|s| s.parse().ok()).unwrap_or(4);
+            let per: usize = arg(&args, "--per").and_then(|s| s.parse().ok()).unwrap_or(100);
+            let k = drive_share::threads(seed, n, threads, per, &mut out);
+            out.flush().unwrap();
+            eprintln!("share-threads executions={}", k);
         }
         "run-vectors" => {
             // spec -> implementation: run every TLC-generated source text against the model's context
